@@ -107,6 +107,19 @@ def annotations(tier):
                     iso["U1"] = ("chr2", strand, ex, "G2")
                 n += 1
                 out.append(("a%d" % n, w, iso, {"spec": spec, "strand": strand, "second": second}))
+    # a gene nested in the last intron of another gene; reads exist for the host's SHORT isoform (first two exons) and for the nested gene
+    # only, so they form two separate read clusters: the first overlaps the host gene alone, the second the host and the nested gene
+    for strand in "+-":
+        full = tuple(range(4))
+        t1 = isoform_exons(1000, full)
+        t2 = isoform_exons(1000, (0, 1))
+        u1 = [(t1[2][1] + 51, t1[2][1] + 150), (t1[2][1] + 351, t1[2][1] + 450)]
+        w = {"chroms": {"chr1": 12000, "chr2": 7000}, "sites": [], "reads": [], "genes": [
+            {"id": "G1", "chr": "chr1", "strand": strand, "transcripts": [{"id": "T1", "exons": [list(e) for e in t1]}, {"id": "T2", "exons": [list(e) for e in t2]}]},
+            {"id": "G2", "chr": "chr1", "strand": strand, "transcripts": [{"id": "U1", "exons": [list(e) for e in u1]}]}]}
+        iso = {"T1": ("chr1", strand, t1, "G1"), "T2": ("chr1", strand, t2, "G1"), "U1": ("chr1", strand, u1, "G2")}
+        n += 1
+        out.append(("a%d" % n, w, iso, {"spec": "nested-two-clusters", "strand": strand, "second": "nested", "reads_for": ["T2", "U1"]}))
     return out
 
 
@@ -336,7 +349,7 @@ def case(args):
     info = {}
     k = 0
     for tid, (chrom, strand, ex, g) in iso.items():
-        if g != "G1":
+        if (tid not in meta["reads_for"]) if "reads_for" in meta else (g != "G1"):
             continue
         for r in derive_reads(tid, chrom, strand, ex, delta, d):
             nm = "p%d" % k
